@@ -208,7 +208,7 @@ def main(tier, seed):
     import scenarios
     import yprog
     fam = scenarios.capture_scenarios()[::3] + scenarios.capture_order_scenarios() + scenarios.exception_scenarios() + scenarios.exit_path_scenarios()
-    fam += scenarios.thrown_value_scenarios() + scenarios.handler_intact_scenarios()[::2] + scenarios.loop_state_scenarios()[::3] + scenarios.range_cache_scenarios()
+    fam += scenarios.thrown_value_scenarios() + scenarios.handler_intact_scenarios()[::2] + scenarios.loop_state_scenarios()[::3] + scenarios.range_cache_scenarios() + scenarios.fiber_lifetime_scenarios()
     n = 300 if tier == "quick" else 3000
     fam += scenarios.fiber_scenarios(random.Random(seed), n, nfib=3) + scenarios.class_scenarios(random.Random(seed), n)
     fam += scenarios.iteration_scenarios(random.Random(seed), n) + scenarios.hashmap_scenarios(random.Random(seed), n)
@@ -275,6 +275,20 @@ def main(tier, seed):
             elif key in base and base[key] != obs:
                 rep.violation("%s '%s': output under gc=%s differs from the never-collect run (%s build): %r vs %r" % (kind, name, gc, bname, obs, base[key]),
                               {"case": c, "never": base[key], "this": obs})
+    # ---- 7. the reachable set of the specification against the real heap ---------------------------------------------------------
+    # Machine.tla computes what is still reachable when a program's last run has ended (Live: module globals, module table, range cache,
+    # the interpreter's current fiber chain; through elements, keys, values, fields, class ancestry and methods, the variables a closure's
+    # code mentions, bound-method receivers, iterators, the frames of suspended fibers, parked exceptions).  After a forced collection the
+    # objects that survive are counted by kind: fewer than the specification says = something reachable was reclaimed (this property),
+    # more = garbage is kept (C16).  Every program also has to print what the machine predicts, on the build that collects at every
+    # allocation and on the paced one.
+    import profcheck
+    fam7 = scenarios.fiber_lifetime_scenarios() + scenarios.thrown_value_scenarios() + scenarios.handler_intact_scenarios()[::3]
+    fam7 += scenarios.fiber_scenarios(random.Random(seed + 1), n, nfib=3) + scenarios.class_scenarios(random.Random(seed + 1), n)
+    fam7 += scenarios.iteration_scenarios(random.Random(seed + 1), n) + scenarios.hashmap_scenarios(random.Random(seed + 1), n, exhaustive_pairs=False)
+    fam7 += scenarios.capture_order_scenarios() + scenarios.fiber_switch_context_scenarios()
+    nlive = profcheck.run_scenarios(rep, "reachableset", fam7, [("dev", dev), ("release", rel)], PROP, trace=False)
+    nprog += nlive
     rep.coverage["probe_programs"] = len(PROBES)
     rep.coverage["corpus_scripts"] = len(items)
     rep.coverage["schedules"] = scheds
